@@ -108,7 +108,16 @@ def _variants():
         return inversion_util.reconstruction_positive_negative_from(data_vector=b.copy(), curvature_reg_matrix=A.copy(),
                                                                     mapper_param_range_list=[])
 
-    return [("nnls", "fnnls-cold", cold), ("nnls", "fnnls-warm", warm), ("nnls", "positive-only-cold", rpo(False)),
+    # the same whole-number systems handed over as integer arrays (int64 matrix and right-hand side, int32 right-hand side):
+    # "arbitrary SPD matrices and right-hand sides" does not fix the dtype, and every entry of the family is integral
+    def as_int(fn, dt):
+        def f(A, b):
+            return fn(np.rint(A).astype(np.int64), np.rint(b).astype(dt))
+        return f
+
+    ints = [("nnls", "fnnls-cold-int64", as_int(cold, np.int64)), ("nnls", "fnnls-warm-int64", as_int(warm, np.int64)),
+            ("nnls", "fnnls-cold-int32-rhs", as_int(cold, np.int32)), ("nnls", "positive-only-config-default-int64", as_int(rpo_default, np.int64))]
+    return ints + [("nnls", "fnnls-cold", cold), ("nnls", "fnnls-warm", warm), ("nnls", "positive-only-cold", rpo(False)),
             ("nnls", "positive-only-warm", rpo(True)), ("nnls", "positive-only-config-default", rpo_default),
             ("solve", "unconstrained", solve)]
 
